@@ -1,0 +1,23 @@
+//go:build verif
+// +build verif
+
+package tar
+
+import "sync/atomic"
+
+var verifPointFunc atomic.Value // func(string)
+
+// SetVerifPointForVerif installs a callback that is invoked at every verifPoint (nil removes it). A
+// verification harness uses it to park a goroutine at that place. Only built with the 'verif' tag.
+func SetVerifPointForVerif(fn func(point string)) {
+	if fn == nil {
+		fn = func(string) {}
+	}
+	verifPointFunc.Store(fn)
+}
+
+func verifPoint(point string) {
+	if fn, ok := verifPointFunc.Load().(func(string)); ok {
+		fn(point)
+	}
+}
